@@ -2,7 +2,8 @@
    (gen/SmartGen.v is translated from lnodes.py on every run) and through
    float_product yields a tree with the same numeric value as the unsimplified
    operation, for all operands and stores, in any commutative ring under of_Z.
-   The optimiser passes are not covered by a theorem in this development. *)
+   The optimiser passes: see the theorems further down (per kernel pair: symbolic equivalence;
+   for all code lists: the structural / algebraic facts about the model Opt.v of optimizer.py). *)
 From Coq Require Import ZArith List String.
 From FFCX Require Import LN SmartBase Smart.
 From FFCXGen Require Import SmartGen.
@@ -95,3 +96,69 @@ Theorem C17_symbolic_execution_is_faithful :
     = Some (map (vmap T of_Z of_lit of_clit tadd tsub tmul tdiv tneg tfn rho) r).
 Proof. exact run_hom. Qed.
 Print Assumptions C17_symbolic_execution_is_faithful.
+
+(* Optimiser half, for ALL code lists: the model Opt.v of optimizer.py (tied to the source by the
+   node-by-node correspondence of harness/optcorr.py on every captured optimize() call).
+   These are the structural and algebraic facts; that moved statements do not interfere is the part
+   decided per kernel pair above. *)
+From FFCX Require Import Opt OptProps.
+From Coq Require Import Permutation.
+
+Theorem C17_section_fusion_moves_only_the_named_sections :
+  forall code n,
+    filter (fun it => negb (is_named n it)) (fuse_sections code n)
+    = filter (fun it => negb (is_named n it)) code
+    /\ named_sections n (fuse_sections code n)
+       = match named_sections n code with nil => nil | _ => cons (fused_section n code) nil end
+    /\ sstmts (fused_section n code) = map norm1 (flat_map sstmts (named_sections n code))
+    /\ sdecls (fused_section n code) = flat_map sdecls (named_sections n code).
+Proof.
+  intros code n. split; [apply fuse_sections_keeps_the_other_items|].
+  split; [apply fuse_sections_leaves_one|]. split; apply fused_section_contents.
+Qed.
+Print Assumptions C17_section_fusion_moves_only_the_named_sections.
+
+Theorem C17_fused_section_stands_where_the_first_one_stood :
+  forall code n pre it rest,
+    code = pre ++ it :: rest -> named_sections n pre = nil -> is_named n it = true ->
+    fuse_sections code n
+    = pre ++ ISec (fused_section n code) :: filter (fun x => negb (is_named n x)) rest.
+Proof. exact fuse_sections_shape. Qed.
+Print Assumptions C17_fused_section_stands_where_the_first_one_stood.
+
+Theorem C17_statement_cleanup_is_the_identity :
+  forall (T : Type) (of_Z : Z -> T) (of_lit : Z -> Z -> T) (of_clit : Z -> Z -> Z -> Z -> T)
+         (tadd tsub tmul tdiv : T -> T -> T) (tneg : T -> T) (teqb tltb tleb : T -> T -> bool)
+         (tfn : string -> list T -> T) inp l st,
+    @exec_list T of_Z of_lit of_clit tadd tsub tmul tdiv tneg teqb tltb tleb tfn inp (map norm1 l) st
+    = @exec_list T of_Z of_lit of_clit tadd tsub tmul tdiv tneg teqb tltb tleb tfn inp l st.
+Proof. exact exec_list_norm1. Qed.
+Print Assumptions C17_statement_cleanup_is_the_identity.
+
+Theorem C17_loop_fusion_collects_each_range_exactly :
+  forall k l, bucket k (loop_buckets l) = bodies_with k l /\ NoDup (map fst (loop_buckets l)).
+Proof. intros k l. split; [apply fuse_loops_collects_each_range | apply fuse_loops_ranges_distinct]. Qed.
+Print Assumptions C17_loop_fusion_collects_each_range_exactly.
+
+Theorem C17_hoisting_regroups_the_factors_of_a_product :
+  forall (M : Type) (mul : M -> M -> M) (one : M),
+    (forall a b, mul a b = mul b a) -> (forall a b c, mul (mul a b) c = mul a (mul b c)) ->
+    (forall a, mul one a = a) ->
+    forall (den : expr -> M) i args keep hoist tmp,
+      split_args i args = Some (keep, hoist) ->
+      tmp = prod M mul one (map den hoist) ->
+      Permutation args (keep ++ hoist)
+      /\ prod M mul one (map den keep ++ cons tmp nil) = prod M mul one (map den args).
+Proof.
+  intros M mul one Hc Ha H1 den i args keep hoist tmp Hs Ht. split.
+  - eapply split_args_perm; eauto.
+  - eapply licm_product_value; eauto.
+Qed.
+Print Assumptions C17_hoisting_regroups_the_factors_of_a_product.
+
+(* non-vacuity: a product with two hoistable factors and one kept *)
+Import ListNotations.
+Example C17_split_example :
+  split_args 5%positive [ESym 9%positive; EAcc 8%positive [ESym 5%positive]; EAcc 8%positive [ESym 6%positive]]
+  = Some ([EAcc 8%positive [ESym 5%positive]], [ESym 9%positive; EAcc 8%positive [ESym 6%positive]]).
+Proof. reflexivity. Qed.
